@@ -1099,3 +1099,50 @@ Proof.
     + apply Z.leb_le; eassumption.
     + rewrite max_bits_val. unfold max_votes_count. lia.
 Qed.
+
+(* ================================================================== layer B: state-machine side guards *)
+
+(* Part.Index is a uint32 and never negative; Vote.ValidatorIndex is tested.  Every access the
+   state machine makes with the numbers of a message — any message, validated or not — is in
+   range, for every part set whose parts slice has [total] entries. *)
+Lemma add_part_in_bounds : forall ps idx genuine,
+  0 <= idx -> forallb acc_ok (snd (add_part ps idx genuine)) = true.
+Proof.
+  intros ps idx genuine Hi. unfold add_part, add_part_with.
+  destruct (pt_total ps <=? idx) eqn:E; [reflexivity|]. apply Z.leb_gt in E.
+  assert (Ha : acc_ok (Acc idx (pt_total ps)) = true).
+  { cbn. apply andb_true_iff; split; [apply Z.leb_le | apply Z.ltb_lt]; lia. }
+  destruct (nth (Z.to_nat idx) (pt_have ps) false); [cbn [snd forallb]; now rewrite Ha|].
+  destruct (negb genuine); cbn [snd forallb]; now rewrite Ha.
+Qed.
+
+Definition msg_index_unsigned (m : cmsg) : Prop :=
+  match m with MBlockPart _ _ idx _ _ => 0 <= idx | _ => True end.
+
+Lemma statemachine_in_bounds : forall st m genuine,
+  msg_index_unsigned m -> forallb acc_ok (sm_accesses st m genuine) = true.
+Proof.
+  intros st m genuine Hu. unfold sm_accesses, sm_accesses_with. destruct m; try reflexivity.
+  - destruct (height =? sm_height st); [|reflexivity].
+    destruct (sm_parts st) as [ps|]; [|reflexivity]. now apply add_part_in_bounds.
+  - destruct ((index <? 0) || (sm_nvals st <=? index)) eqn:E; [reflexivity|].
+    apply orb_false_iff in E as [E1 E2]. apply Z.ltb_ge in E1. apply Z.leb_gt in E2.
+    cbn. assert (H : (0 <=? index) && (index <? sm_nvals st) = true)
+      by (apply andb_true_iff; split; [apply Z.leb_le | apply Z.ltb_lt]; lia).
+    now rewrite H.
+Qed.
+
+(* a part is only ever added at a free position inside the set *)
+Lemma part_added_spec : forall st m genuine, sm_part_added st m genuine = true ->
+  exists h r idx bl pk ps, m = MBlockPart h r idx bl pk /\ h = sm_height st /\ sm_parts st = Some ps /\
+    idx < pt_total ps /\ nth (Z.to_nat idx) (pt_have ps) false = false /\ genuine = true.
+Proof.
+  intros st m genuine H. destruct m; try discriminate. cbn in H.
+  apply andb_true_iff in H as [Hh H]. apply Z.eqb_eq in Hh.
+  destruct (sm_parts st) as [ps|] eqn:Ep; [|discriminate].
+  unfold add_part, add_part_with in H.
+  destruct (pt_total ps <=? index) eqn:E; [discriminate|]. apply Z.leb_gt in E.
+  destruct (nth (Z.to_nat index) (pt_have ps) false) eqn:En; [discriminate|].
+  destruct genuine; [|discriminate].
+  exists height, round, index, byteslen, proof_ok, ps. repeat split; auto.
+Qed.
